@@ -12,6 +12,7 @@ real-code oracle of vp/c19.py only.
 -/
 import PoetryVerif.Proofs.ParserTotalGM
 import PoetryVerif.Proofs.ParserTotalVC
+import PoetryVerif.Proofs.ParserTotalVC2
 
 /-! # Part I — versions, string constraints, markers -/
 /-!
@@ -455,5 +456,133 @@ theorem marker_leaf_err_classified_of_algebra_total (hA : AlgebraTotal Clause) (
     (swapped : Bool) (e : PyErr) (h : mkSingle name cstr swapped = .error e) :
     e = .value ∨ (e = .unmodelled ∧ name = "platform_release") :=
   mkSingle_err_classified (vc_err_documented_of_algebra_total hA) name cstr swapped e h
+
+end Poetry.C19
+
+/-! # Part IV — version constraints: the algebra hypothesis discharged outside the local-label case -/
+/-!
+C19, Part IV — the constraint algebra is total on what the parser builds when no clause denotes a local build.
+Property theorems only (helper lemmas in Proofs/ParserTotalVC2.lean).  Vocabulary: `clauseBounds s m` — every
+`min`/`max` version of every clause of `s`; `NoLocalBound s m` — none of them carries a local label (`V+x`);
+`RegularBounds s m` — any two of them are equal or of different releases; `Inv B c` — every member of `c` is
+well-formed (ends well-formed, `min < max`), tidy (an absent bound is not "included") and has its bounds in `B`;
+`Plain c` — well-formed and not a `VersionUnion`.
+-/
+set_option linter.unusedSimpArgs false
+set_option linter.unusedVariables false
+
+namespace Poetry.C19
+open Poetry Version VParser ParserTotal
+
+/-! ## the algebra on invariant operands -/
+
+/-- **`a.intersect(b)` is total and keeps the invariant**, for any two constraints (unions included) whose
+members are well-formed and tidy over a bound set without local builds: `VersionRange.intersect`'s asserts do
+not fire, the merge walk of `VersionUnion.intersect` ends within the model's fuel, `VersionUnion.of` of the
+collected parts does not recurse. -/
+theorem vc_intersect_total_nolocal (B : List Version) (hN : NoLocal B) (a b : VC) (ha : Inv B a) (hb : Inv B b) :
+    ∃ c, VC.intersect a b = .ok c ∧ Inv B c :=
+  vcIntersect_inv hN a b ha hb
+
+/-- **`VersionUnion.of(*groups)` is total and keeps the invariant** under the same hypotheses -/
+theorem vc_union_of_total_nolocal (B : List Version) (hN : NoLocal B) (gs : List VC) (h : ∀ g ∈ gs, Inv B g) :
+    ∃ c, VC.unionOf gs = .ok c ∧ Inv B c :=
+  unionOf_inv hN gs h
+
+/-- hence the hypothesis of Part II holds for the class of invariant constraints -/
+theorem vc_algebra_total_nolocal (B : List Version) (hN : NoLocal B) : AlgebraTotal (Inv B) :=
+  algebraTotal_inv hN
+
+/-- every parsed clause is invariant over any bound set containing its bounds (well-formedness: Part of C18;
+tidiness: by the clause shapes) -/
+theorem vc_clause_invariant (B : List Version) (p : List Char) (m : Bool) (c : VC)
+    (h : parseSingle p m = .ok c) (hb : ∀ e ∈ c.bounds, e ∈ B) : Inv B c :=
+  parseSingle_inv p m c h hb
+
+/-! ## A. the documented error only — every string without a local bound -/
+
+/-- **`_parse_constraint` returns or raises `ValueError`, for every string none of whose clauses denotes a
+local build** (both modes; any number of `,` and `||`, `!=`, wildcards, `~`, `^`, `~=` included).  The returned
+constraint satisfies the invariant over the bounds the string denotes. -/
+theorem vc_parse_total_nolocal (s : String) (m : Bool) (h : NoLocalBound s m) :
+    (∃ c, parseConstraintAux s m = .ok c ∧ Inv (clauseBounds s m) c) ∨
+      parseConstraintAux s m = .error .value :=
+  parseConstraintAux_nolocal s m h
+
+/-- the same as an error classification -/
+theorem vc_parse_err_documented_nolocal (s : String) (m : Bool) (h : NoLocalBound s m) (e : PyErr)
+    (he : parseConstraintAux s m = .error e) : e = .value := by
+  rcases parseConstraintAux_nolocal s m h with ⟨c, hc, _⟩ | hv
+  · rw [hc] at he; cases he
+  · rw [hv] at he; cases he; rfl
+
+example : NoLocalBound ">=1.2,<2.0,!=1.5 || ==3.* || ~=4.1.post2 || ^0.0.3rc1,!=0.0.3" false := by decide
+example : NoLocalBound "!=1.*,!=2.*,>=0.5.dev3" true := by decide
+example : ¬ NoLocalBound ">=1.0+x || 1.0" false := by decide
+
+/-- what remains of the full statement of Part II: strings with a clause that denotes a local build -/
+def vc_parse_err_documented_local_case_statement : Prop :=
+  ∀ (s : String) (m : Bool) (e : PyErr), ¬ NoLocalBound s m → parseConstraintAux s m = .error e → e = .value
+
+/-- **the full statement of Part II is equivalent to its local-label case** -/
+theorem vc_parse_err_documented_full_iff_local_case :
+    vc_parse_err_documented_full_statement ↔ vc_parse_err_documented_local_case_statement := by
+  constructor
+  · intro h s m e _ he; exact h s m e he
+  · intro h s m e he
+    by_cases hn : NoLocalBound s m
+    · exact vc_parse_err_documented_nolocal s m hn e he
+    · exact h s m e hn he
+
+/-- **one `||` group whose clauses are not unions (no `!=`): unconditional — local labels included.**
+(`Version`/`VersionRange` intersections are total on well-formed operands and stay non-unions.) -/
+theorem vc_plain_group_err_documented (s : String) (m : Bool) (g : List Char)
+    (hs : splitOr (strip s.toList) = [g])
+    (h : ∀ p ∈ groupPieces g, ∀ c, parseSingle p m = .ok c → c.notUnion) :
+    (∃ c, parseConstraintAux s m = .ok c) ∨ parseConstraintAux s m = .error .value := by
+  rw [parseConstraintAux_one_group s m g hs]
+  split
+  · exact Or.inl ⟨_, rfl⟩
+  · rcases parseGroup_plain g m h with ⟨c, hc, _⟩ | hv
+    · exact Or.inl ⟨c, hc⟩
+    · exact Or.inr hv
+
+example : splitOr (strip ">=1.0+x, <=2.0+y.1 1.5+z".toList) = [">=1.0+x, <=2.0+y.1 1.5+z".toList] ∧
+    plainGroupB ">=1.0+x, <=2.0+y.1 1.5+z".toList false = true := by decide
+
+example : ∀ p ∈ groupPieces ">=1.0+x, <=2.0+y.1 1.5+z".toList, ∀ c, parseSingle p false = .ok c → c.notUnion :=
+  plainGroup_of_check _ _ (by decide)
+
+/-- the group step alone, for any group of non-union clauses -/
+theorem vc_plain_group_total (g : List Char) (m : Bool)
+    (h : ∀ p ∈ groupPieces g, ∀ c, parseSingle p m = .ok c → c.notUnion) :
+    (∃ c, parseGroup g m = .ok c ∧ Plain c) ∨ parseGroup g m = .error .value :=
+  parseGroup_plain g m h
+
+/-! ## B. printing — no local bound, mutually regular bounds -/
+
+/-- **`VersionUnion._inverted` is total** on a union whose members are invariant over a bound set that has no
+local build and is mutually regular -/
+theorem vc_inverted_total_regular (B : List Version) (hN : NoLocal B) (hR : MutReg B) (rs : List RC)
+    (h : ∀ c ∈ rs, MemOK B c) : ∃ res, VC.inverted rs = .ok res :=
+  inverted_total_inv hN hR rs h
+
+/-- **what the parser returns prints**, for every string whose clause bounds carry no local label and are
+mutually regular (any two equal or of different releases).  Missing for the full statement of Part II:
+`_inverted` on unions with two bounds of the same release that differ (e.g. `1.0` and `1.0.post1`) or with a
+local bound. -/
+theorem vc_parsed_printable_regular (s : String) (m : Bool) (hN : NoLocalBound s m) (hR : RegularBounds s m)
+    (c : VC) (h : parseConstraintAux s m = .ok c) : ∃ t, c.toStr = .ok t :=
+  parsed_printable_regular s m hN hR c h
+
+example : NoLocalBound ">=1.2,<2.0,!=1.5 || ==3.* || <0.5" false ∧
+    RegularBounds ">=1.2,<2.0,!=1.5 || ==3.* || <0.5" false :=
+  ⟨by decide, regularBounds_of_check _ _ (by decide)⟩
+
+example : (parseConstraint ">=1.2,<2.0,!=1.5 || ==3.* || <0.5" >>= VC.toStr) =
+    .ok "<0.5 || >=1.2,<1.5 || >1.5,<2.0 || ==3.*" := by decide
+
+/-- not covered: two bounds of the same release (`1.0`, `1.0.post1`) -/
+example : regularBoundsB ">1.0 || <1.0.post1" false = false := by decide
 
 end Poetry.C19
